@@ -10,6 +10,7 @@ package main
 
 import (
 	"fmt"
+	metav1 "k8s.io/apimachinery/pkg/apis/meta/v1"
 	"math"
 	"sort"
 	"strings"
@@ -299,6 +300,113 @@ func longRuns(c *ev.Check) {
 					}
 				}
 			}
+		}
+	}
+}
+
+// twoSchemas: an upstream with TWO global-allocate schemas. An instance the server knows through schema s1 sends its
+// first report for s2 - with no previous quota (it has just started to use s2), or with one the server never answered
+// (what a gateway reports right after an operator switched s2 from globalCount to globalAllocate: the whole global
+// limit it was running under). Whatever it says, every answered quota stays within [1, global limit] and the recorded
+// sum of s2 does not pass the limit when it was within it before.
+func twoSchemas(c *ev.Check) {
+	const limit = 100
+	for _, claimed := range []int32{0, 1, 50, limit} {
+		for _, heldByB := range []int{0, 10, 40} { // rounds of overloaded reports by b on s2 before a turns up
+			rig := limrig.New(1, "local")
+			rig.Gain(0)
+			cl := limrig.MIFCluster(upstream, "s1", proxyv1alpha1.GlobalAllocateLimit, 1, limit)
+			cl.Spec.FlowControl.Schemas = append(cl.Spec.FlowControl.Schemas, limrig.MIFCluster(upstream, "s2", proxyv1alpha1.GlobalAllocateLimit, 1, limit).Spec.FlowControl.Schemas[0])
+			if err := rig.ApplyCluster(cl); err != nil {
+				c.EngineError("two-schemas: " + err.Error())
+				return
+			}
+			last := map[string]int32{}
+			report := func(inst string, items map[string]int32, level int32) (map[string]int32, error) {
+				_ = rig.L.Heartbeat(inst)
+				rep := &proxyv1alpha1.RateLimitCondition{ObjectMeta: metav1.ObjectMeta{Name: limrig.ConditionName(upstream, inst)}, Spec: proxyv1alpha1.RateLimitSpec{UpstreamCluster: upstream, Instance: inst}}
+				for _, name := range []string{"s1", "s2"} {
+					q, ok := items[name]
+					if !ok {
+						continue
+					}
+					it := proxyv1alpha1.RateLimitItemConfiguration{Name: name, Strategy: proxyv1alpha1.GlobalAllocateLimit}
+					if q > 0 {
+						it.MaxRequestsInflight = &proxyv1alpha1.MaxRequestsInflightFlowControlSchema{Max: q}
+					}
+					rep.Spec.LimitItemConfigurations = append(rep.Spec.LimitItemConfigurations, it)
+					rep.Status.LimitItemStatuses = append(rep.Status.LimitItemStatuses, proxyv1alpha1.RateLimitItemStatus{Name: name, RequestLevel: level,
+						LimitItemDetail: proxyv1alpha1.LimitItemDetail{MaxRequestsInflight: &proxyv1alpha1.MaxRequestsInflightFlowControlSchema{Max: q}}})
+				}
+				ans, err := rig.L.UpdateRateLimitConditionStatus(upstream, rep)
+				if err != nil {
+					return nil, err
+				}
+				out := map[string]int32{}
+				for _, it := range ans.Spec.LimitItemConfigurations {
+					if it.MaxRequestsInflight != nil {
+						out[it.Name] = it.MaxRequestsInflight.Max
+					}
+				}
+				return out, nil
+			}
+			sumS2 := func() (t int64) {
+				for _, cd := range rig.H.Store(0).ListUpstream(upstream) {
+					if strings.HasSuffix(cd.Name, ".state") {
+						continue
+					}
+					for _, it := range cd.Spec.LimitItemConfigurations {
+						if it.Name == "s2" && it.MaxRequestsInflight != nil {
+							t += int64(it.MaxRequestsInflight.Max)
+						}
+					}
+				}
+				return
+			}
+			fail := false
+			for i := 0; i < heldByB && !fail; i++ {
+				ans, err := report("gwb", map[string]int32{"s2": last["b.s2"]}, 150)
+				if err != nil {
+					c.EngineError("two-schemas: " + err.Error())
+					fail = true
+				}
+				last["b.s2"] = ans["s2"]
+			}
+			for i := 0; i < 3 && !fail; i++ { // a is known through s1
+				ans, err := report("gwa", map[string]int32{"s1": last["a.s1"]}, 100)
+				if err != nil {
+					c.EngineError("two-schemas: " + err.Error())
+					fail = true
+				}
+				last["a.s1"] = ans["s1"]
+			}
+			if fail {
+				continue
+			}
+			last["a.s2"] = claimed
+			for round := 0; round < 6; round++ {
+				before := sumS2()
+				ans, err := report("gwa", map[string]int32{"s1": last["a.s1"], "s2": last["a.s2"]}, 150)
+				c.Add("transitions", 1)
+				if err != nil {
+					c.Violation("two-schemas/report-failed", fmt.Sprintf("b holds %d of s2; a (known through s1) reports s2 with previous quota %d: %v", last["b.s2"], last["a.s2"], err), nil)
+					break
+				}
+				q, after := ans["s2"], sumS2()
+				ctx := fmt.Sprintf("two global-allocate schemas, limit %d each; b holds %d of s2; a, known to the server through s1, reports s2 with previous quota %d under load (round %d): answered %d, recorded sum of s2 %d -> %d", limit, last["b.s2"], last["a.s2"], round, q, before, after)
+				if q < 1 || q > limit {
+					c.Violation("two-schemas/quota-out-of-range", ctx, map[string]interface{}{"claimed": claimed, "b_rounds": heldByB})
+					break
+				}
+				if before <= limit && after > limit && q != 1 && !(round == 0 && claimed > 0) {
+					// (round 0 with a claimed quota the server never answered: the claim itself may lift the sum - C07 speaks
+					// of honest reports; what is answered from the next round on must fit again)
+					c.Violation("two-schemas/overcommit", ctx, map[string]interface{}{"claimed": claimed, "b_rounds": heldByB})
+					break
+				}
+				last["a.s1"], last["a.s2"] = ans["s1"], q
+			}
+			c.Add("two_schema_scenarios", 1)
 		}
 	}
 }
@@ -674,6 +782,7 @@ func main() {
 	}
 	tasks = append(tasks, ev.Task{Name: "saturated-handover", Run: func() { saturatedHandover(c) }})
 	tasks = append(tasks, ev.Task{Name: "long-runs", Run: func() { longRuns(c) }})
+	tasks = append(tasks, ev.Task{Name: "two-schemas", Run: func() { twoSchemas(c) }})
 	c.RunTasks(tasks)
 	c.Finish(map[string]interface{}{
 		"states":                        c.Counter("states") + c.Counter("choice_points"),
